@@ -203,5 +203,30 @@ func runC01(c *runCtx) error {
 		}
 		c01Case(e, pred, c01Store(r, r.intn(24)))
 	}
+	// = / != with a float operand (integer, float and mixed pairs).  The stores hold only values
+	// whose float reading is inside the twin's float model (no 1e2, nothing >= 2^53), numeric
+	// ones alone (evaluable on every pair) or mixed with texts that do not convert.
+	numVals := []string{"12", "-3", "2.5", "7", "007", "100", "0.5", "1.5", "2.25", "0", "5.0", "2"}
+	mixVals := append([]string{"abc", "", "x", "a,b,c"}, numVals...)
+	feqKeys := []string{"", "a", "aa", "ab", "abc", "b", "b0", "ba", "c", "k", "ka", "kb", "12", "A", "zz"}
+	feqStore := func(vals []string) [][2]string {
+		out := [][2]string{}
+		for _, k := range feqKeys {
+			if r.chance(2, 3) {
+				out = append(out, [2]string{k, pick(r, vals)})
+			}
+		}
+		sort.Slice(out, func(i, j int) bool { return out[i][0] < out[j][0] })
+		return out
+	}
+	for _, pred := range []string{"float(value) = 2.5", "float(value) != 0.5", "0.5 = float(value)", "int(value) = 12.0",
+		"float(value) = int(value)", "int(value) != float(value)", "float(value) * 2 = 5.0", "key ^= 'a' & float(value) = 0.5",
+		"float(value) != 9007199254740993", "9007199254740993 = float(value) + 9007199254740992", "int(value) * 0.5 = 3.5",
+		"key >= 'b' | 1.5 = float(value) + 1", "!(float(value) = 100)", "float(strlen(key)) = strlen(value) / 2.0",
+		"float(value) = float(value) & key != 'zz'", "float(value) - 2 = 0.25 | int(value) = 7"} {
+		c01Case(e, pred, feqStore(numVals))
+		c01Case(e, pred, feqStore(numVals))
+		c01Case(e, pred, feqStore(mixVals))
+	}
 	return e.flush()
 }
